@@ -138,6 +138,12 @@ func c02apis() []c02api {
 		{name: "Unmarshal-[]int-std", wrap: ident,
 			stdAccept: func(w []byte) bool { var v []int; return json.Unmarshal(w, &v) == nil },
 			accept:    func(w []byte) (bool, []byte) { var v []int; return std.Unmarshal(w, &v) == nil, nil }},
+		{name: "Unmarshal-[2]int-default", wrap: ident,
+			stdAccept: func(w []byte) bool { var v [2]int; return json.Unmarshal(w, &v) == nil },
+			accept:    func(w []byte) (bool, []byte) { var v [2]int; return def.Unmarshal(w, &v) == nil, nil }},
+		{name: "Unmarshal-[][0]bool-std", wrap: ident,
+			stdAccept: func(w []byte) bool { var v [][0]bool; return json.Unmarshal(w, &v) == nil },
+			accept:    func(w []byte) (bool, []byte) { var v [][0]bool; return std.Unmarshal(w, &v) == nil, nil }},
 		{name: "Unmarshal-struct-default", wrap: ident,
 			stdAccept: func(w []byte) bool { var v dAB; return json.Unmarshal(w, &v) == nil },
 			accept:    func(w []byte) (bool, []byte) { var v dAB; return def.Unmarshal(w, &v) == nil, nil }},
@@ -560,6 +566,10 @@ func c02strata(thorough bool) [][]byte {
 	// many invalid UTF-8 bytes in string literals (the ValidateString repair pass works in
 	// rounds of 4096 positions): structure must survive the repair
 	for _, s := range volumeDocs() {
+		add(s)
+	}
+	// arrays around the length of fixed-size destinations with trailing / doubled commas
+	for _, s := range arityDocs() {
 		add(s)
 	}
 	maxL := 136
